@@ -583,3 +583,8 @@ def run(report, repo):
   from sa.rules import extra4, c09  # pylint: disable=g-import-not-at-top
   report.guard(extra4.handler_always_installed, report, repo, 'C19-R7')
   report.guard(c09.r1_exit_paths, report, repo, rule='C19-R8')
+  from sa.rules import extra5 as _e5b  # pylint: disable=g-import-not-at-top
+  from sa.rules import c10 as _c10  # pylint: disable=g-import-not-at-top
+  report.guard(_c10.r2_record_lists, report, repo, rule='C19-R9')
+  from sa.rules import extra5 as _e5d  # pylint: disable=g-import-not-at-top
+  report.guard(_e5d.test_logger_has_no_forwarders, report, repo, 'C19-R10')
